@@ -97,6 +97,19 @@ Proof.
     + apply IH; auto.
     + exfalso. apply (Hns f). left. reflexivity.
 Qed.
+
+Theorem w_keep_unsync_transparent : forall s0 w, no_setflag w ->
+  let a := snd (w_run (c, s0) w) in
+  let b := snd (w_run (c, s0) (steps_only w)) in
+  pjh a = pjh b /\ is_sync a = is_sync b /\ recalc (w_init a) = recalc (w_init b) /\
+  part (w_sync c a) = part (w_sync c b) /\
+  forall m, iter (S m) (w_step c) a = iter (S m) (w_step c) b.
+Proof.
+  intros s0 w Hns a b. destruct (w_transparent w Hns s0 s0 (Rk_refl s0)) as (_ & _ & h).
+  fold a b in h. pose proof h as (h1 & h2 & h3 & h4). repeat split; auto.
+  - apply w_sync_part_Rk. exact h.
+  - intros m. simpl. rewrite (w_step_Rk a b h). reflexivity.
+Qed.
 End Keep.
 
 (* ---- (a) deferred synchronisation = safe mode, under the flow laws *)
@@ -306,7 +319,7 @@ Ltac dss x := let p := fresh "p" in let j := fresh "j" in let s := fresh "sy" in
 Lemma s_sync_idem : forall (c : scfg) s, s_sync c (s_sync c s) = s_sync c s.
 Proof.
   intros c s. dss s. unfold Model.s_sync. simpl.
-  destruct sy; simpl; [destruct cr, (s_keep c), al; reflexivity|].
+  destruct sy; simpl; [reflexivity|].
   destruct (s_keep c); simpl; destruct cr, al; simpl; reflexivity.
 Qed.
 
@@ -314,9 +327,9 @@ Qed.
 Definition Rs (x y : sst) : Prop :=
   spjh x = spjh y /\ s_is_sync x = s_is_sync y /\ s_recalc x = s_recalc y /\ s_alloc x = s_alloc y /\
   s_crashed x = s_crashed y /\ (s_is_sync x = true -> spart x = spart y).
-(* the cache exists, and no recalculation is pending on an unsynchronized state (reb_integrator_saba_part1 would
-   recompute the coordinates from unsynchronized particles WITHOUT synchronizing first) *)
-Definition Good (x : sst) : Prop := s_alloc x = true /\ (s_is_sync x = true \/ s_recalc x = false).
+(* synchronized (e.g. a fresh simulation), or unsynchronized with an existing cache and no recalculation pending
+   (reb_integrator_saba_part1 would recompute the coordinates from unsynchronized particles WITHOUT synchronizing first) *)
+Definition Good (x : sst) : Prop := s_is_sync x = true \/ (s_recalc x = false /\ s_alloc x = true).
 
 Lemma Rs_refl x : Rs x x. Proof. repeat split; auto. Qed.
 Lemma Rs_trans x y z : Rs x y -> Rs y z -> Rs x z.
@@ -328,16 +341,19 @@ Context (c : scfg) (Hok : s_ok c = true) (Hsafe : s_safe c = false) (Hkeep : s_k
 
 Lemma s_sync_Rs x : Good x -> Rs (s_sync c x) x /\ Good (s_sync c x).
 Proof.
-  intros (a & b). dss x. simpl in *. subst. unfold Model.s_sync, Rs, Good. rewrite Hkeep. simpl.
-  destruct sy; simpl; rewrite orb_false_r; repeat split; auto; discriminate.
+  intros g. dss x. unfold Good in *. simpl in *. unfold Model.s_sync, Rs. rewrite Hkeep. simpl.
+  destruct sy; simpl.
+  - repeat split; auto.
+  - destruct g as [g|(g1 & g2)]; [discriminate|]. subst. simpl. rewrite orb_false_r. repeat split; auto; discriminate.
 Qed.
 
 Lemma s_part1_Rs x y : Rs x y -> Good x -> s_part1 c x = s_part1 c y.
 Proof.
-  intros (a & b & d & e & f & g) (h1 & h2). dss x. dss y. simpl in *. subst.
-  unfold Model.s_part1. rewrite Hok, Hsafe. simpl. rewrite orb_false_r.
-  destruct rc0; simpl; [|reflexivity].
-  destruct h2 as [h2|h2]; [|discriminate]. subst. rewrite g by reflexivity. reflexivity.
+  intros (a & b & d & e & f & g) h. dss x. dss y. unfold Good in h. simpl in *. subst.
+  unfold Model.s_part1. rewrite Hok, Hsafe. simpl.
+  destruct h as [h|(h1 & h2)].
+  - subst. rewrite g by reflexivity. reflexivity.
+  - subst. reflexivity.
 Qed.
 
 Lemma s_step_Rs x y : Rs x y -> Good x -> s_step c x = s_step c y.
@@ -347,7 +363,7 @@ Lemma s_step_Good x : Good (s_step c x).
 Proof.
   dss x. unfold Model.s_step, Model.s_part1, Model.s_part2, Good. rewrite Hok, Hsafe. simpl.
   match goal with |- context [s_loop N O dt ?a ?b ?d ?k ?jj ?p ?j] => destruct (s_loop N O dt a b d k jj p j) end.
-  simpl. auto.
+  simpl. right. auto.
 Qed.
 
 Lemma s_iter_Good n x : Good x -> Good (iter n (s_step c) x).
@@ -380,6 +396,19 @@ Lemma s_sync_part_Rs x y : Rs x y -> spart (s_sync c x) = spart (s_sync c y).
 Proof.
   intros (a & b & d & e & f & g). dss x. dss y. simpl in *. subst.
   unfold Model.s_sync. rewrite Hkeep. simpl. destruct sy0; simpl; auto.
+Qed.
+
+Theorem s_keep_unsync_transparent : forall s0 w, Good s0 ->
+  let a := s_run c s0 w in
+  let b := s_run c s0 (s_steps_only w) in
+  spjh a = spjh b /\ s_is_sync a = s_is_sync b /\ s_recalc a = s_recalc b /\ s_crashed a = s_crashed b /\
+  spart (s_sync c a) = spart (s_sync c b) /\
+  forall m, iter (S m) (s_step c) a = iter (S m) (s_step c) b.
+Proof.
+  intros s0 w g a b. destruct (s_transparent w s0 s0 (Rs_refl s0) g) as (h & ga).
+  fold a b in h, ga. pose proof h as (h1 & h2 & h3 & h4 & h5 & h6). repeat split; auto.
+  - apply s_sync_part_Rs. exact h.
+  - intros m. simpl. rewrite (s_step_Rs a b h ga). reflexivity.
 Qed.
 End SKeep.
 
@@ -428,7 +457,7 @@ Proof.
   rewrite E. unfold Model.s_part2. simpl.
   change (c0dt N dt cs) with (c0dt N dt c). change (c0dt N dt cu) with (c0dt N dt c).
   match goal with |- context [s_loop N O dt ?a ?b ?d ?k ?jj ?p ?j] => destruct (s_loop N O dt a b d k jj p j) end.
-  unfold Model.s_sync. simpl. rewrite orb_false_r. split; [reflexivity|repeat split].
+  unfold Model.s_sync. simpl. rewrite ?orb_false_r. split; [reflexivity|repeat split].
 Qed.
 
 Lemma s_unsafe_iter n x : SInv x -> s_sync cu (iter n (s_step cu) x) = iter n (s_step cs) (s_sync cu x).
@@ -497,28 +526,30 @@ Lemma m_commute_step x : MInv x ->
   m_step true (m_sync x) = m_sync (m_step false x) /\ MInv (m_step false x).
 Proof.
   intros (a & b & d & e). dsm x. simpl in *. subst.
-  unfold Model.m_step, Model.m_part1, Model.m_part2, Model.m_sync. simpl.
+  cbv [Model.m_step Model.m_part1 Model.m_part2 Model.m_sync mp md m_is_sync m_recalc m_recalc_rcrit m_alloc orb MInv].
   rewrite L_dh, L_kick. split; [reflexivity|repeat split].
 Qed.
 
 Lemma m_first_step s : m_coherent s -> m_step true s = m_sync (m_step false s) /\ MInv (m_step false s).
 Proof.
   intros (a & b). dsm s. simpl in *. subst.
-  unfold Model.m_step, Model.m_part1, Model.m_part2, Model.m_sync.
-  destruct al; simpl.
-  - destruct b as [b|b]; [discriminate|]. subst. simpl. destruct rr; simpl; split; try reflexivity; repeat split.
-  - split; try reflexivity; repeat split.
+  destruct al.
+  - destruct b as [b|b]; [discriminate|]. subst.
+    destruct rr; cbv [Model.m_step Model.m_part1 Model.m_part2 Model.m_sync mp md m_is_sync m_recalc m_recalc_rcrit m_alloc orb MInv];
+      (split; [reflexivity|repeat split]).
+  - cbv [Model.m_step Model.m_part1 Model.m_part2 Model.m_sync mp md m_is_sync m_recalc m_recalc_rcrit m_alloc orb MInv].
+    split; [reflexivity|repeat split].
 Qed.
 
 Lemma m_unsafe_iter n x : MInv x -> m_sync (iter n (m_step false) x) = iter n (m_step true) (m_sync x).
 Proof.
-  revert x. induction n; intros x h; [reflexivity|]. simpl.
+  revert x. induction n; intros x h; [reflexivity|]. cbn [iter].
   destruct (m_commute_step x h) as (e & h'). rewrite IHn by exact h'. rewrite e. reflexivity.
 Qed.
 
 Lemma m_unsafe_eq_safe_S n s : m_coherent s -> m_sync (iter (S n) (m_step false) s) = iter (S n) (m_step true) s.
 Proof.
-  intros h. simpl. destruct (m_first_step s h) as (e & h'). rewrite m_unsafe_iter by exact h'. rewrite e. reflexivity.
+  intros h. cbn [iter]. destruct (m_first_step s h) as (e & h'). rewrite m_unsafe_iter by exact h'. rewrite e. reflexivity.
 Qed.
 End MLaws.
 End MERCP.
@@ -551,14 +582,14 @@ Proof. intros a. destruct s as [p sy]. simpl in a. subst. reflexivity. Qed.
 
 Lemma e_unsafe_iter n x : e_is_sync x = false -> e_sync (iter n (e_part2 false) x) = iter n (e_part2 true) (e_sync x).
 Proof.
-  revert x. induction n; intros x h; [reflexivity|]. simpl.
+  revert x. induction n; intros x h; [reflexivity|]. cbn [iter].
   rewrite IHn by apply e_unsync_after. rewrite e_commute_step by exact h. reflexivity.
 Qed.
 Lemma e_unsafe_eq_safe n s : e_is_sync s = true -> e_sync (iter n (e_part2 false) s) = iter n (e_part2 true) s.
 Proof.
   intros h. destruct n.
   - destruct s as [p sy]. simpl in h. subst. reflexivity.
-  - simpl. rewrite e_unsafe_iter by apply e_unsync_after. rewrite <- e_first_step by exact h. reflexivity.
+  - cbn [iter]. rewrite e_unsafe_iter by apply e_unsync_after. rewrite <- e_first_step by exact h. reflexivity.
 Qed.
 End ELaws.
 End EOSP.
